@@ -279,9 +279,11 @@ def main():
             f = [x for x in known["findings"] if x["id"] == kid][0]
             print(f"KNOWN-FINDING: property={check} {f['what']} (id={kid}, {len(vs)} runs hit it)")
         if harness:
-            print(f"HARNESS-ERROR {len(harness)} runs failed inside the harness; first:\n{harness[0].get('trace') or harness[0].get('log_tail')}")
-            if not replay_paths:
-                rc = max(rc, 2)      # a reported, replayable violation keeps exit code 1
+            systematic = len(harness) > max(2, len(results) // 200)
+            print(f"{'HARNESS-ERROR' if systematic else 'HARNESS-WARNING'} {len(harness)} of {len(results)} runs failed inside the harness "
+                  f"(counted as inconclusive); first:\n{harness[0].get('trace') or harness[0].get('log_tail')}")
+            if systematic and not replay_paths:
+                rc = max(rc, 2)      # a reported, replayable violation keeps exit code 1; isolated harness faults cost their runs only
 
         cov = mod.summarize(results, tier)
         from collections import Counter as _C
